@@ -145,10 +145,33 @@ def oracle(case: dict):
         if canon(back) != canon(v) and not (isinstance(v, float) and v != v and isinstance(back, float) and back != back):
             return ("format-roundtrip", f"format_value({v!r}) = {txt!r} is classified back as {back!r}")
         return None
+    if kind == "hist":
+        # "deterministic": ONE parser / formatter instance classifies a whole sequence of values; every answer must be the
+        # answer a fresh instance gives for that value alone, and an already typed value must come back as it is (same
+        # type, same sign of zero) whatever was classified before
+        for i, x in enumerate(case["vals"]):
+            try:
+                got = parser.parse_value(x)
+                alone = _impl()[0].parse_value(x)
+                txt = fmt.format_value(got) if not isinstance(got, str) else None
+                txt_alone = _impl()[1].format_value(alone) if not isinstance(alone, str) else None
+            except Exception as e:  # noqa: BLE001
+                return ("raises", f"value {i} of the sequence {case['vals']!r}: {type(e).__name__}: {e}")
+            if canon(got) != canon(alone):
+                return ("history", f"after {case['vals'][:i]!r} parse_value({x!r}) = {got!r}; on a fresh parser {alone!r}")
+            if not isinstance(x, str) and canon(got) != canon(x):
+                return ("idempotence", f"after {case['vals'][:i]!r} the typed value {x!r} is classified as {got!r}")
+            if txt != txt_alone:
+                return ("history", f"after {case['vals'][:i]!r} format_value({got!r}) = {txt!r}; on a fresh formatter {txt_alone!r}")
+        return None
     raise ValueError(kind)
 
 
 def shrink(case: dict):
+    if case["kind"] == "hist":
+        v = case["vals"]
+        for i in range(len(v)):
+            yield {"kind": "hist", "vals": v[:i] + v[i + 1:]}
     if case["kind"] == "parse":
         s = case["s"]
         for i in range(len(s)):
@@ -331,6 +354,17 @@ def run(ctx):
         case, v = fcases[idx]
         if canon_model(ml) != canon(v):
             ctx.disagree("model parse(format v)", case, canon_model(ml), canon(v))
+    # 3b. sequences on one instance: values that compare (and hash) equal across types or signs -- 0 == 0.0 == -0.0 == False,
+    # 1 == 1.0 == True -- and their spellings, in every order
+    pool = [0, 0.0, -0.0, False, 1, 1.0, True, -1, -1.0, None, 10, 10.0, 1e1, "0", "0.0", "-0.0", "+0", "-0", "false", "False",
+            "true", "1", "1.0", "1.", "1e0", "on", "off", "none", "NULL", "", "'0'", '"1.0"', " 1 ", "-1", "1e1", 2**63, float(2**63)]
+    for _ in range(ctx.n(600, 12000)):
+        vals = [rng.choice(pool) for _ in range(rng.randrange(2, 9))]
+        case = {"kind": "hist", "vals": vals}
+        r = oracle(case)
+        if r:
+            ctx.oracle_fail(case, r[0], r[1])
+        ctx.count(("h", repr(vals)), True, "history-one-instance")
     # 4. known findings are re-established explicitly (they are outside the random generators)
     for case in ({"kind": "parse", "s": "1" * 4301}, {"kind": "fmt", "v": None, "float_hex": float("inf").hex()},
                  {"kind": "fmt", "v": None, "float_hex": float("-inf").hex()}, {"kind": "fmt", "v": None, "float_hex": float("nan").hex()}):
